@@ -1,0 +1,22 @@
+// SPDX-FileCopyrightText: 2026 The Pion community <https://pion.ly>
+// SPDX-License-Identifier: MIT
+
+//go:build verif
+
+package mux
+
+// Spec functions for the contract-based verification in /verif (build tag verif).
+// RFC 7983 demultiplexing, written over (length, first byte, second byte).
+
+// specDTLS: first byte in [20..63].
+func specDTLS(n int, b0 byte) bool { return n >= 1 && b0 >= 20 && b0 <= 63 }
+
+// specMedia: first byte in [128..191] (RTP or RTCP).
+func specMedia(n int, b0 byte) bool { return n >= 1 && b0 >= 128 && b0 <= 191 }
+
+// specRTCPType: long enough to carry an RTCP header and packet type in [192..223].
+func specRTCPType(n int, b1 byte) bool { return n >= 4 && b1 >= 192 && b1 <= 223 }
+
+func specSRTCP(n int, b0, b1 byte) bool { return specMedia(n, b0) && specRTCPType(n, b1) }
+
+func specSRTP(n int, b0, b1 byte) bool { return specMedia(n, b0) && !specRTCPType(n, b1) }
